@@ -6,6 +6,8 @@ pub const H: u64 = 1 << 63;
 pub const SIGMA3: [u64; 3] = [0, 1, M];
 pub const SIGMA5: [u64; 5] = [0, 1, H, M - 1, M];
 pub const SIGMA8: [u64; 8] = [0, 1, 2, H - 1, H, H + 1, M - 1, M];
+/// half-digit structure: values around 2^31, 2^32, 2^33, 2^63, an all-ones / all-zero upper or lower half
+pub const SIGMA16: [u64; 16] = [0, 1, 2, 3, 0x8000_0000, 0xffff_ffff, 0x1_0000_0000, 0x1_0000_0001, 0x1_ffff_ffff, H - 1, H, H + 1, 0xffff_ffff_0000_0000, 0xffff_fffe_ffff_ffff, M - 1, M];
 pub const SIGMA32: [u64; 8] = [0, 1, H, M - 1, M, 0xffff_ffff, 0x1_0000_0000, 0x1_0000_0001];
 
 /// Every digit string over `sigma` of length <= `l` with non-zero top digit, plus the empty
